@@ -3,6 +3,7 @@
 import json, os, shutil, re, sys
 SRC = sys.argv[1] if len(sys.argv) > 1 else "/tmp/wt/out"
 CONF = json.load(open(sys.argv[2] if len(sys.argv) > 2 else "/tmp/wt/confirm_results.json"))
+ROUND = sys.argv[3] if len(sys.argv) > 3 else "r1"
 ROOT = os.path.dirname(os.path.dirname(os.path.abspath(__file__)))
 # which registered quick checks report the change (from the try_mut runs recorded in DESIGN.md 9.5)
 DETECT = {
@@ -23,19 +24,25 @@ for r in CONF:
     if not ok:
         print("NOT KEPT", pid, m, {k: r.get(k) for k in ("applies", "demo_clean_rc", "demo_mut_rc", "baseline_passed", "baseline_failed")})
         continue
-    dst = f"{ROOT}/seeded/{pid}/{m}"
+    sid = f"{pid}-{ROUND}{m}"
+    dst = f"{ROOT}/seeded/{sid}"
     os.makedirs(dst, exist_ok=True)
-    for fn in ("patch.diff", "patch_adapted.diff", "demo.py", "notes.md"):
+    for fn in ("demo.py", "notes.md"):
         if os.path.exists(f"{src}/{fn}"):
             shutil.copy(f"{src}/{fn}", f"{dst}/{fn}")
+    shutil.copy(f"{src}/{r['patch']}", f"{dst}/patch.diff")  # the patch that applies to the current tree
+    if r["patch"] != "patch.diff":
+        shutil.copy(f"{src}/patch.diff", f"{dst}/patch_as_written.diff")
     notes = open(f"{src}/notes.md").read() if os.path.exists(f"{src}/notes.md") else ""
     needs = ""
     mm = re.search(r"(?is)(what.{0,40}needs?.{0,60}manifest.*?)(\n#|\Z)", notes)
     meta = dict(
+        id=sid,
         property=pid,
-        mutation=m,
-        patch=r["patch"],
-        note="patch_adapted.diff is the same change re-based onto the repaired tree (the original patch was written before a fix: commit touched the same lines)" if r["patch"] != "patch.diff" else None,
+        round=ROUND,
+        patch="patch.diff",
+        demonstration="demo.py",
+        note="patch.diff is the same change as patch_as_written.diff re-based onto the repaired tree (the original patch was written before a fix: commit touched the same lines)" if r["patch"] != "patch.diff" else None,
         what_it_needs_to_manifest="see notes.md (written by the author of the change) and DESIGN.md section 9.5",
         confirmed=dict(
             where="scratch git worktree of /repo HEAD (removed afterwards)",
@@ -45,8 +52,8 @@ for r in CONF:
             baseline_tests_with_change=f"{r['baseline_passed']} passed, {r.get('baseline_failed', 0)} failed (the 76 pinned tests, pytest -n 5)",
             commands=["git -C /repo worktree add --detach <wt> HEAD", "python demo.py (PYTHONPATH=<wt>)", f"git apply {r['patch']}", "python demo.py", "pytest -n 5 <76 pinned tests>", "git worktree remove --force <wt>"],
         ),
-        detected_by_quick_checks=DETECT.get(f"{pid}/{m}", []),
-        how_to_rerun=f"tools/try_mut.sh seeded/{pid}/{m}/{r['patch']} " + " ".join(DETECT.get(f"{pid}/{m}", [pid])) + "   (scratch worktree)  or  INPLACE=1 tools/try_mut.sh ... (applies to /repo, runs, undoes)",
+        detected_by_quick_checks=DETECT.get(f"{ROUND}/{pid}/{m}", DETECT.get(f"{pid}/{m}", []) if ROUND == "r1" else [pid]),
+        how_to_rerun=f"tools/try_mut.sh seeded/{sid}/patch.diff " + " ".join(DETECT.get(f"{ROUND}/{pid}/{m}", DETECT.get(f"{pid}/{m}", [pid]) if ROUND == "r1" else [pid])) + "   (scratch worktree)  or  INPLACE=1 tools/try_mut.sh ... (applies to /repo, runs, undoes)",
     )
     json.dump({k: v for k, v in meta.items() if v is not None}, open(f"{dst}/meta.json", "w"), indent=1)
     kept += 1
